@@ -564,6 +564,9 @@ func BaseScope() *Scope {
 		}
 		return Nil, &Err{Class: EGo, Payload: Opaque("go-error"), Msg: "boom", Sentinel: "boom"}
 	}))
+	s.Set("rawpan!", B("rawpan!", func(in *Interp, a []Value) (Value, *Err) {
+		return Nil, &Err{Class: EGo, Payload: Opaque("go-error"), Msg: "pan", Sentinel: "pan"}
+	}))
 	s.Set("pan!", B("pan!", func(in *Interp, a []Value) (Value, *Err) {
 		if e := arity(a, 0); e != nil {
 			return Nil, e
